@@ -243,6 +243,27 @@ def g_commute(ctx, rng, i):
         ctx.judge("crossratio", ok, [t, *cpts], what=f"cross ratio of collinear points changes under t: {cr0} vs {cr1}", op="crossratio", nontrivial=nt)
     except Exception as e:
         ctx.judge("crossratio", False, [t, *cpts], what=f"crossratio raised {type(e).__name__}: {e}", op="crossratio", feat={"exc": type(e).__name__, "dim": dim})
+    # pencils of lines: vertex finite / at infinity (parallel lines), and a map that sends a finite vertex to infinity
+    if mode == "int":
+        V = [P[2].array, np.append(gen.nonzero_vec(rng, dim, 3), 0)]
+        rowk = np.asarray(t.array)[-1]
+        if abs(np.dot(rowk, np.asarray(P[2].array, dtype=float))) < 1e-9:
+            V.append(P[2].array)  # (t itself sends this vertex to infinity)
+        for v in V:
+            try:
+                q1, q2 = P[0].array, P[1].array
+                if X.rank([X.vec(v), X.vec(q1), X.vec(q2)]) < 3:
+                    continue
+                ends = [q1, q2, q1 + lam[0] * q2, lam[1] * q1 + q2]
+                pencil = [g.Line(g.Point(v), g.Point(e_)) for e_ in ends]
+                cr0 = g.crossratio(*pencil)
+                cr1 = g.crossratio(*[t * l_ for l_ in pencil])
+                crp = g.crossratio(*[g.Point(e_) for e_ in ends])
+                ok = bool(np.isclose(cr0, cr1, rtol=1e-6 * max(1, cond), atol=1e-9) and np.isclose(cr0, crp, rtol=1e-6, atol=1e-9))
+                ctx.judge("crossratio", ok, [t, v, *ends], what=f"cross ratio of a pencil of lines: {cr0}, of its image {cr1}, of the points it projects {crp}", op="crossratio(lines)", nontrivial=nt,
+                          feat={"dim": dim, "vertex_at_infinity": bool(v[-1] == 0)})
+            except Exception as e:
+                ctx.judge("crossratio", False, [t, v], what=f"crossratio of a pencil of lines raised {type(e).__name__}: {e}", op="crossratio(lines)", feat={"exc": type(e).__name__, "dim": dim})
     if dim == 2:
         o = P[2]
         try:
